@@ -234,7 +234,7 @@ PROPS = {
                                               "write_frame", "lag2_witness"]]
                     + ["Akd.CacheFill." + t for t in ["coherent_reachable", "quiescent_cache_exact", "answers_recent",
                                                       "stale_fill_witness", "stale_fill_witness_fixed", "evict_in_fill_witness"]],
-        "streams": ["l1.dir.c13", "l1.sched.read"],
+        "streams": ["l1.dir.c13", "l1.sched.read", "l1.sched.poll"],
         "rule": "(a) read requests (epoch hash, lookup, complete / most-recent history, audit; one or two at a time) on a second, "
                 "read-only instance (uncached, default cache, 1 ms cache — or SHARING the writer's cached storage manager, with database "
                 "reads that take their value at one scheduling point and deliver it at a later one, followed by a probe of the same "
